@@ -17,7 +17,7 @@ search:         an oracle written from the property text: (a) every rule / getDt
                 phase order must give the same time grid and per-phase histories; (c) real ternary
                 databases queried in all element orders must give the same value per element name.
 """
-import os, json, itertools, io, contextlib, time, types, copy, hashlib, re
+import os, json, itertools, io, contextlib, time, types, copy, hashlib, re, math
 from fractions import Fraction
 import numpy as np
 from common import *
@@ -1230,6 +1230,29 @@ def run(ctx):
     report_fake_hits(ctx, hits_f)
     ctx.notes['timing']['element_order_model'] = round(time.time() - t0, 1)
     t0 = time.time()
+    pcases = [unhx(c['input']) for c in corpus_raw('profile')]
+    hits_p = [(c,) + h for c in pcases for h in oracle_profile(c)] + explore_profiles(ctx, 150 if quick else 2000)
+    seen = set()
+    for (c, clause, cls, msg) in hits_p:
+        if (clause, cls) in seen:
+            continue
+        seen.add((clause, cls))
+        small = shrink_profile(c, lambda d: any(h[1] == cls for h in oracle_profile(d)))
+        hs = [h for h in oracle_profile(small) if h[1] == cls]
+        ctx.violation(clause, {'site': 'CompositionProfile.buildProfile', 'cls': cls},
+                      {'kind': 'profile', 'input': hx(small), 'observed': hs[0][2] if hs else msg,
+                       'oracle': 'the row built for an element is the result of the steps registered for THAT element, whatever the order of the model\'s element list and of the registrations (harness/c11.py: expected_profile)'},
+                      hs[0][2] if hs else msg)
+    hits_sd = explore_stub_diffusion(ctx, quick)
+    seen = set()
+    for (cfg, clause, cls, msg) in hits_sd:
+        if (clause, cls) in seen:
+            continue
+        seen.add((clause, cls))
+        ctx.violation(clause, {'site': 'SinglePhaseModel.solve', 'cls': cls}, {'kind': 'sdiff', 'input': cfg, 'observed': msg,
+                      'oracle': 'the same couple (profiles described per element name, interdiffusivity defined per element name) run with every order of the solutes gives the same profile per element name'}, msg)
+    ctx.notes['timing']['profiles'] = round(time.time() - t0, 1)
+    t0 = time.time()
     hits_db = explore_db(ctx, quick)
     seen = set()
     for (inp, clause, cls, msg) in hits_db:
@@ -1244,26 +1267,16 @@ def run(ctx):
         ctx.violation('correspondence', {'site': 'numpy.argsort', 'cls': 'index algebra'},
                       {'broken': {'correspondence': 'coq/C11/Model.v (argsort, reorder, delete_at) vs numpy', 'first_disagreement': d}, 'input': {'names': names}},
                       'model and numpy disagree (%d cases), e.g. %s' % (len(dis_a), d), no_input=True)
-    if tie_broken and not (hits_f or hits_db):
-        # the code no longer matches the idioms the theorems are about and neither the labelled backend nor
-        # the databases show a wrong value: search harder before giving up
-        more = explore_fake(ctx, 400)
-        if more:
-            report_fake_hits(ctx, more)
-        else:
-            ctx.violation('translator_tie', {'site': 'harness/c11_translate.py', 'cls': 'bridge'},
-                          {'broken': {'tie': tie_broken, 'theorems': bridge_failed, 'file': 'coq/C11/run/Bridge.v'}},
-                          'the index idioms regenerated from the source no longer satisfy the bridge: %s' % tie_broken[:300], no_input=True)
     ctx.notes['tie_broken'] = tie_broken
 
     # ---- phase order --------------------------------------------------------------------------
     t0 = time.time()
-    cases = corpus_cases('dt') + [c for c in (gen_dt_case(ctx.rng, i) for i in range(200 if quick else 3000)) if usable_dt_case(c)]
+    cases = corpus_cases('dt') + [c for c in (gen_dt_case(ctx.rng, i) for i in range(120 if quick else 3000)) if usable_dt_case(c)]
     dis, hits = explore_dt(ctx, cases)
     report_dt_hits(ctx, hits)
     ctx.notes['timing']['step_size_rules'] = round(time.time() - t0, 1)
     t0 = time.time()
-    scases = [gen_sites_case(ctx.rng, i) for i in range(60 if quick else 600)]
+    scases = [gen_sites_case(ctx.rng, i) for i in range(45 if quick else 600)]
     dis_s, hits_s = explore_sites(ctx, scases)
     seen = set()
     for (c, clause, cls, msg) in hits_s:
@@ -1284,6 +1297,17 @@ def run(ctx):
         ctx.violation(clause, {'site': 'PrecipitateModel.solve', 'cls': cls}, {'kind': 'run', 'input': cfg, 'observed': msg,
                       'oracle': 'same time grid and same per-phase histories for every listing order of the phases (stub backend, harness/stubs.py)'}, msg)
     ctx.notes['timing']['runs'] = round(time.time() - t0, 1)
+    t0 = time.time()
+    hits_t = explore_truns(ctx, [c['input'] for c in corpus_raw('trun')] + trun_configs(quick))
+    seen = set()
+    for (cfg, clause, cls, msg) in hits_t:
+        if (clause, cls) in seen:
+            continue
+        seen.add((clause, cls))
+        ctx.violation(clause, {'site': 'PrecipitateModel (multicomponent)', 'cls': cls}, {'kind': 'trun', 'input': cfg, 'observed': msg,
+                      'oracle': 'closed-form ternary backend, phases differing in interfacial energy / molar volume / shape: every quantity handed to the backend for a phase is that phase\'s own, and every listing order gives the same time grid and per-phase histories'}, msg)
+    hits_r = hits_r + hits_t
+    ctx.notes['timing']['ternary_runs'] = round(time.time() - t0, 1)
     if not quick:
         t0 = time.time()
         hs, steps = oracle_real_runs()
@@ -1293,6 +1317,16 @@ def run(ctx):
         for (clause, cls, msg) in hs[:1]:
             ctx.violation(clause, {'site': 'PrecipitateModel.solve', 'cls': cls}, {'kind': 'realrun', 'input': {'tf': 36000.}, 'observed': msg,
                           'oracle': 'Al-Mg-Si run (MGSI_B_P + MG5SI6_B_DP, 175 C, 10 h) in both solute orders and both phase orders: same histories by name, 1e-5'}, msg)
+    if tie_broken and not (hits_f or hits_db or hits_p or hits_sd or hits_r or hits or hits_s):
+        # the code no longer matches the idioms the bridge theorems are about and no oracle (labelled backend, profiles,
+        # databases, runs) shows a wrong value: search harder before giving up
+        more = explore_fake(ctx, 400)
+        if more:
+            report_fake_hits(ctx, more)
+        else:
+            ctx.violation('translator_tie', {'site': 'harness/c11_translate.py', 'cls': 'bridge'},
+                          {'broken': {'tie': tie_broken, 'theorems': bridge_failed, 'file': 'coq/C11/run/Bridge.v'}},
+                          'the index idioms regenerated from the source no longer satisfy the bridge: %s' % tie_broken[:300], no_input=True)
     for (dd, hh, what, site) in ((dis, hits, 'step-size rules', SITE_DT), (dis_s, hits_s, 'nucleation sites', 'KWNEuler._calcNucleationSites')):
         if dd and not hh and not hits_r:
             c, d = dd[0]
@@ -1302,7 +1336,7 @@ def run(ctx):
                           'model and implementation disagree on the %s (%d cases), e.g. %s' % (what, len(dd), d), no_input=True)
     ctx.notes['disagreements'] = {'argsort': len(dis_a), 'step_size_rules': len(dis), 'nucleation_sites': len(dis_s)}
     ctx.notes['oracle_hits'] = {'argsort': len(hits_a), 'labelled_backend': len(hits_f), 'databases': len(hits_db), 'step_size_rules': len(hits),
-                                'nucleation_sites': len(hits_s), 'runs': len(hits_r)}
+                                'nucleation_sites': len(hits_s), 'runs': len(hits_r), 'profiles': len(hits_p), 'stub_diffusion': len(hits_sd)}
     for t in failed:
         ctx.violation(t, {'site': 'coq/C11/Properties.v', 'cls': 'proof'},
                       {'broken': {'theorem': t, 'file': 'coq/C11/Properties.v'}},
@@ -1352,6 +1386,13 @@ def replay(ctx, obj):
     elif kind == 'diffusion':
         i = obj['input']
         hits = oracle_diffusion(i['db'], {k: tuple(v) for k, v in i['profile'].items()}, i['T'], i['tf'])
+    elif kind == 'profile':
+        hits = oracle_profile(unhx(obj['input']))
+    elif kind == 'sdiff':
+        hits = oracle_stub_diffusion(obj['input'])
+    elif kind == 'trun':
+        hits, info = oracle_truns(obj['input'])
+        print('replay: steps per order', info['steps'])
     elif kind == 'realrun':
         hits, steps = oracle_real_runs(obj['input'].get('tf', 36000.))
         print('replay: steps', steps)
@@ -1440,3 +1481,446 @@ def oracle_real_runs(tf=36000., rtol=1e-5):
                     hits.append(('run_perm_equivariant', 'Al-Mg-Si run', '%s differs (%s): %s' % (k, who, d)))
                     break
     return hits, steps
+
+
+# ==========================================================================================
+# diffusion profiles: CompositionProfile.buildProfile and a stub-diffusivity run in every element order
+PROFILE_FUNCS = {
+    'quad': lambda a, b, zl, zr: (lambda z: a + b * ((np.asarray(z) - zl) / (zr - zl)) ** 2),
+    'tanh': lambda a, b, zl, zr: (lambda z: a + b * 0.5 * (1 + np.tanh(8 * ((np.asarray(z) - zl) / (zr - zl) - 0.5)))),
+}
+PROFILE_ELS = ['CR', 'AL', 'CO', 'TI', 'MO']
+
+
+def gen_step(rng, zl, zr):
+    kind = str(rng.choice(['linear', 'step', 'single', 'bounded', 'function', 'profile']))
+    v = lambda: float(rng.integers(1, 60)) / 512.0          # exact dyadic compositions
+    zz = lambda: float(zl + (zr - zl) * rng.integers(0, 17) / 16.0)
+    if kind == 'linear':
+        return [kind, v(), v()]
+    if kind == 'step':
+        return [kind, v(), v(), zz()]
+    if kind == 'single':
+        return [kind, v(), zz()]
+    if kind == 'bounded':
+        a, b = sorted([zz(), zz()])
+        return [kind, v(), a, b]
+    if kind == 'function':
+        return [kind, str(rng.choice(list(PROFILE_FUNCS))), v(), v()]
+    npts = int(rng.integers(2, 5))
+    zs = sorted(set(zz() for _ in range(npts))) or [zl]
+    return [kind, [v() for _ in zs], zs]
+
+
+def gen_profile_case(rng, idx):
+    ns = int(rng.choice([2, 2, 3, 4]))
+    sol = [str(e) for e in rng.choice(PROFILE_ELS, ns, replace=False)]
+    zl, zr = (-1e-3, 1e-3) if rng.random() < 0.5 else (0.0, 1.0)
+    N = int(rng.integers(4, 16))
+    ops = []
+    # every element gets at least one step; registration order is arbitrary, elements may be cleared and set again
+    todo = list(rng.permutation(sol))
+    pool = list(sol) + (['W'] if rng.random() < 0.15 else [])       # an element the model does not have (only warned about)
+    for e in todo:
+        ops.append(['add', str(e)] + gen_step(rng, zl, zr))
+    for _ in range(int(rng.integers(0, 5))):
+        e = str(rng.choice(pool))
+        what = str(rng.choice(['add', 'set', 'set']))
+        ops.append([what, e] + gen_step(rng, zl, zr))
+    if rng.random() < 0.5:
+        rng.shuffle(ops[:len(todo)])
+    return dict(solutes=sol, zlim=[zl, zr], N=N, ops=ops, via=str(rng.choice(['profile', 'model'])))
+
+
+def apply_profile_ops(c, cp=None, model=None):
+    """registers the steps through the public API: CompositionProfile.add*Step / clear (op 'add', 'set' = clear + add),
+    or the DiffusionModel setters setComposition* (always clear + add)"""
+    zl, zr = c['zlim']
+    for op in c['ops']:
+        what, e, kind, args = op[0], op[1], op[2], op[3:]
+        if kind == 'function':
+            f = PROFILE_FUNCS[args[0]](args[1], args[2], zl, zr)
+        if model is not None and what == 'set':
+            if kind == 'linear':
+                model.setCompositionLinear(args[0], args[1], e)
+            elif kind == 'step':
+                model.setCompositionStep(args[0], args[1], args[2], e)
+            elif kind == 'single':
+                model.setCompositionSingle(args[0], args[1], e)
+            elif kind == 'bounded':
+                model.setCompositionInBounds(args[0], args[1], args[2], e)
+            elif kind == 'function':
+                model.setCompositionFunction(f, e)
+            else:
+                model.setCompositionProfile(args[1], args[0], e)
+            continue
+        if what == 'set':
+            cp.clearCompositionBuildSteps(e)
+        if kind == 'linear':
+            cp.addLinearCompositionStep(e, args[0], args[1])
+        elif kind == 'step':
+            cp.addStepCompositionStep(e, args[0], args[1], args[2])
+        elif kind == 'single':
+            cp.addSingleCompositionStep(e, args[0], args[1])
+        elif kind == 'bounded':
+            cp.addBoundedCompositionStep(e, args[0], args[1], args[2])
+        elif kind == 'function':
+            cp.addFunctionCompositionStep(e, f)
+        else:
+            cp.addProfileCompositionStep(e, args[0], args[1])
+
+
+def impl_profile(c, order):
+    """{element: built profile} for the model whose solutes are listed in `order`"""
+    import warnings
+    from kawin.diffusion.DiffusionParameters import CompositionProfile
+    from kawin.diffusion import SinglePhaseModel
+    with warnings.catch_warnings():
+        warnings.simplefilter('ignore')
+        with quiet():
+            if c['via'] == 'model':
+                m = SinglePhaseModel(list(c['zlim']), c['N'], ['NI'] + list(order), ['P'], thermodynamics=None, record=False)
+                apply_profile_ops(c, cp=m.compositionProfile, model=m)
+                x = np.zeros((len(order), c['N']))
+                m.compositionProfile.buildProfile(m.elements, x, m.z)
+            else:
+                cp = CompositionProfile()
+                apply_profile_ops(c, cp=cp)
+                z = np.linspace(c['zlim'][0], c['zlim'][1], c['N'])
+                x = np.zeros((len(order), c['N']))
+                cp.buildProfile(list(order), x, z)
+    return {e: x[i].copy() for i, e in enumerate(order)}
+
+
+def expected_profile(c):
+    """independent recomputation from the description of the couple: the steps registered for an element, in the
+    order they were registered (a 'set' discards the earlier ones), applied to that element's own row"""
+    zl, zr = c['zlim']
+    z = np.linspace(zl, zr, c['N'])
+    steps = {}
+    for op in c['ops']:
+        what, e = op[0], op[1]
+        if what == 'set':
+            steps[e] = []
+        steps.setdefault(e, []).append(op[2:])
+    out = {}
+    for e in c['solutes']:
+        row = np.zeros(c['N'])
+        for st in steps.get(e, []):
+            kind, a = st[0], st[1:]
+            if kind == 'linear':
+                row = np.linspace(a[0], a[1], c['N'])
+            elif kind == 'step':
+                row = np.where(z <= a[2], a[0], a[1]).astype(float)
+            elif kind == 'single':
+                k = int(np.argmin(np.abs(z - a[1])))
+                row = row.copy(); row[k] = a[0]
+            elif kind == 'bounded':
+                row = np.where((z >= a[1]) & (z <= a[2]), a[0], row)
+            elif kind == 'function':
+                row = np.array(PROFILE_FUNCS[a[0]](a[1], a[2], zl, zr)(z), dtype=float)
+            else:
+                row = np.interp(z, a[1], a[0])
+        out[e] = row
+    return out
+
+
+def oracle_profile(c, perms=None):
+    sol = c['solutes']
+    perms = perms or list(itertools.permutations(range(len(sol))))
+    try:
+        exp = expected_profile(c)
+        res = [(pm, impl_profile(c, [sol[i] for i in pm])) for pm in perms]
+    except Exception as e:
+        return [('profile_equivariant', 'exception', 'building the profile raised %s: %s' % (type(e).__name__, e))]
+    hits = []
+    for pm, r in res:
+        od = [sol[i] for i in pm]
+        for e in sol:
+            if not np.array_equal(r[e], exp[e]):
+                k = int(np.argmax(r[e] != exp[e]))
+                hits.append(('profile_equivariant', 'buildProfile',
+                             'profile of %s built for a model with elements %s has x=%r at node %d; the steps registered for %s give %r '
+                             '(the same couple with elements %s gives %r)' % (e, ['NI'] + od, float(r[e][k]), k, e, float(exp[e][k]),
+                                                                             *next(((['NI'] + [sol[i] for i in pm2], float(r2[e][k])) for pm2, r2 in res if pm2 != pm), (['NI'] + od, float(r[e][k]))))))
+                return hits
+    return hits
+
+
+def shrink_profile(c, pred):
+    cur = c
+    changed = True
+    while changed:
+        changed = False
+        for j in range(len(cur['ops']) - 1, -1, -1):
+            d = copy.deepcopy(cur)
+            del d['ops'][j]
+            if not all(any(op[1] == e for op in d['ops']) for e in d['solutes']):
+                continue
+            try:
+                if pred(d):
+                    cur, changed = d, True
+                    break
+            except Exception:
+                pass
+    return cur
+
+
+def explore_profiles(ctx, ncases):
+    hits = []
+    for i in range(ncases):
+        c = gen_profile_case(ctx.rng, i)
+        ns = len(c['solutes'])
+        perms = perms_of(ns, ctx.rng)
+        hs = oracle_profile(c, perms)
+        reg = []
+        for op in c['ops']:
+            if op[0] == 'set' and op[1] in reg:
+                reg.remove(op[1])
+            if op[1] not in reg:
+                reg.append(op[1])
+        ctx.count({'profile': c}, [e for e in reg if e in c['solutes']] != c['solutes'] or ns > 2)
+        ctx.hist('profile_solutes', ns)
+        for op in c['ops']:
+            ctx.hist('profile_builder', op[2])
+        for h in hs:
+            hits.append((c,) + h)
+    return hits
+
+
+class NamedD:
+    """closed-form interdiffusivity defined per element NAME: D(a,b) = f(T) * (2 if a == b else off(a,b)) * (1 + k_b x_b);
+    answers in the order of the model it was built for"""
+    K = {'CR': 1.5, 'AL': -0.8, 'CO': 0.6, 'TI': 2.2, 'MO': -0.3}
+
+    def __init__(self, solutes, base=1e-13):
+        self.sol, self.base = list(solutes), base
+
+    def clearCache(self):
+        pass
+
+    def getInterdiffusivity(self, x, T, phase=None):
+        x = np.atleast_1d(x)
+        xb = dict(zip(self.sol, x))
+        f = self.base * math.exp(-20000.0 / (8.314 * float(T)))
+        off = lambda a, b: 0.25 * (label(a) % 7 - 3) / 3.0 + 0.1 * (label(b) % 5 - 2) / 2.0
+        return np.array([[f * (2.0 if a == b else off(a, b)) * (1 + self.K[b] * xb[b]) for b in self.sol] for a in self.sol])
+
+
+def stub_diffusion_run(cfg, order):
+    import warnings
+    from kawin.diffusion import SinglePhaseModel
+    from kawin.solver import SolverType
+    with warnings.catch_warnings():
+        warnings.simplefilter('ignore')
+        with quiet():
+            m = SinglePhaseModel(list(cfg['zlim']), cfg['N'], ['NI'] + list(order), ['P'], thermodynamics=NamedD(order), record=False)
+            m.setTemperature(cfg['T'])
+            # the couple is described once, element by element, in the order cfg gives - not in the model's order
+            apply_profile_ops({'zlim': cfg['zlim'], 'ops': cfg['ops']}, cp=m.compositionProfile, model=m)
+            m.setup()
+            x0 = {e: m.x[i].copy() for i, e in enumerate(order)}
+            m.solve(cfg['tf'], solverType=SolverType.EXPLICITEULER, verbose=False)
+    return x0, {e: m.x[i].copy() for i, e in enumerate(order)}
+
+
+def oracle_stub_diffusion(cfg):
+    sol = cfg['solutes']
+    orders = [list(o) for o in itertools.permutations(sol)][:6]
+    base0, base1 = stub_diffusion_run(cfg, orders[0])
+    hits = []
+    rtol = 0.0 if len(sol) <= 1 else 1e-10
+    for od in orders[1:]:
+        x0, x1 = stub_diffusion_run(cfg, od)
+        for which, a, b in (('initial', base0, x0), ('final', base1, x1)):
+            for e in sol:
+                d, k = cmp_arrays(a[e], b[e], rtol)
+                if d:
+                    hits.append(('profile_equivariant', 'diffusion run', '%s profile of %s (stub diffusivity, t=%g) differs between element lists %s and %s: %s'
+                                 % (which, e, 0 if which == 'initial' else cfg['tf'], ['NI'] + orders[0], ['NI'] + od, d)))
+                    return hits
+    return hits
+
+
+def stub_diffusion_configs(quick):
+    z = [-1e-3, 1e-3]
+    cfgs = [
+        dict(name='ternary couple, ramps registered CR then AL', solutes=['CR', 'AL'], zlim=z, N=12, T=1473.15, tf=1.5e7,
+             ops=[['set', 'CR', 'linear', 0.077, 0.359], ['set', 'AL', 'linear', 0.054, 0.062]]),
+        dict(name='ternary couple, CR re-set after AL', solutes=['CR', 'AL'], zlim=z, N=12, T=1473.15, tf=1.5e7,
+             ops=[['set', 'CR', 'step', 0.1, 0.3, 0.0], ['set', 'AL', 'step', 0.2, 0.05, 0.0], ['set', 'CR', 'linear', 0.1, 0.3]]),
+        dict(name='quaternary couple', solutes=['CO', 'CR', 'AL'], zlim=z, N=10, T=1400.0, tf=2.0e7,
+             ops=[['set', 'AL', 'step', 0.05, 0.15, 0.0], ['set', 'CO', 'linear', 0.2, 0.1], ['set', 'CR', 'bounded', 0.25, -5e-4, 5e-4], ['add', 'CR', 'single', 0.125, 0.0]]),
+    ]
+    return cfgs
+
+
+def explore_stub_diffusion(ctx, quick):
+    hits = []
+    for cfg in [c['input'] for c in corpus_raw('sdiff')] + stub_diffusion_configs(quick):
+        hs = oracle_stub_diffusion(cfg)
+        ctx.count({'sdiff': cfg}, True)
+        ctx.cov['traces_validated_against_impl'] += min(6, math.factorial(len(cfg['solutes'])))
+        for h in hs:
+            hits.append((cfg,) + h)
+    return hits
+
+
+# ==========================================================================================
+# multicomponent multi-phase runs (closed-form ternary backend of harness/c03_runs.py) whose phases differ in
+# interfacial energy, molar volume and shape; every per-phase quantity handed to the backend is checked
+TPH = {'T1': dict(gamma=0.15, vratio=1.0, shape=None), 'T2': dict(gamma=0.12, vratio=0.9, shape=('needle', 2.0)),
+       'T3': dict(gamma=0.17, vratio=1.1, shape=None)}
+
+
+class TernaryLog:
+    """forwards to the closed-form ternary backend and checks, call by call, that what the model hands over for
+    phase `precPhase` is that phase's own data (property text: per-phase histories do not depend on the position of
+    the phase in the list - so nothing of another phase may enter a phase's growth law)"""
+    def __init__(self, inner):
+        self._inner = inner
+        self.model = None
+        self.last = {}
+        self.bad = []
+        self.ncalls = 0
+
+    def __getattr__(self, k):
+        return getattr(self._inner, k)
+
+    def getDrivingForce(self, x, T, precPhase=None, removeCache=False, **k):
+        dg, xb = self._inner.getDrivingForce(x, T, precPhase=precPhase, removeCache=removeCache, **k)
+        self.last[precPhase] = (float(np.squeeze(dg)), np.array(xb, dtype=float).copy(), np.array(x, dtype=float).copy())
+        return dg, xb
+
+    def _expect(self, ph, R):
+        m = self.model
+        idx = list(m.phases).index(ph)
+        pp = m.precipitateParameters[idx]
+        R = np.asarray(R, dtype=float)
+        strain = pp.strainEnergy.compute(pp.shapeFactor.normalRadii(R))
+        g = pp.volume.Vm * (strain + 2 * pp.shapeFactor.thermoFactor(R) * TPH[ph]['gamma'] / R)
+        return idx, pp, g
+
+    def getGrowthAndInterfacialComposition(self, x, T, dG, R, gExtra, precPhase=None, removeCache=False, searchDir=None):
+        self.ncalls += 1
+        if self.model is not None and len(self.bad) < 5 and np.ndim(R) > 0:
+            ph = precPhase
+            idx, pp, g = self._expect(ph, R)
+            note = lambda what, got, want: self.bad.append((what, 'growth law of phase %s (listed at position %d of %s) was given %s = %s; that phase\'s own value is %s'
+                                                            % (ph, idx, [str(q) for q in self.model.phases], what, got, want)))
+            if not np.array_equal(np.asarray(R), self.model.PBM[idx].PSDbounds):
+                note('radii', np.asarray(R)[:3].tolist(), self.model.PBM[idx].PSDbounds[:3].tolist())
+            elif np.shape(gExtra) != np.shape(g) or not np.allclose(gExtra, g, rtol=1e-12, atol=0):
+                note('Gibbs-Thomson energies', np.asarray(gExtra, dtype=float)[:3].tolist(), np.asarray(g)[:3].tolist())
+            if TPH[ph]['shape'] is None and not np.allclose(gExtra, 2 * TPH[ph]['gamma'] * pp.volume.Vm / np.asarray(R), rtol=1e-12, atol=0):
+                note('Gibbs-Thomson energies (sphere: 2 gamma Vm / R)', np.asarray(gExtra, dtype=float)[:3].tolist(), (2 * TPH[ph]['gamma'] * pp.volume.Vm / np.asarray(R))[:3].tolist())
+            if ph in self.last and np.array_equal(self.last[ph][2], np.array(x, dtype=float)):
+                dgm = self.last[ph][0]
+                if abs(float(np.squeeze(dG)) - dgm) > 1e-9 * max(abs(dgm), 1e-300):
+                    note('driving force', float(np.squeeze(dG)), dgm)
+                if searchDir is not None and not np.array_equal(np.asarray(searchDir, dtype=float), self.last[ph][1]):
+                    note('search direction (precipitate composition)', np.asarray(searchDir).tolist(), self.last[ph][1].tolist())
+        return self._inner.getGrowthAndInterfacialComposition(x, T, dG, R, gExtra, precPhase=precPhase, removeCache=removeCache, searchDir=searchDir)
+
+
+def run_ternary(cfg, order):
+    import c03_runs
+    from kawin.precipitation import PrecipitateModel, VolumeParameter
+    from kawin.solver import SolverType
+    ph = [cfg['phases'][i] for i in order]
+    with quiet():
+        m = PrecipitateModel(phases=ph, elements=['B', 'C'])
+        m.setPBMParameters(cMin=1e-10, cMax=1e-8, bins=75, minBins=50, maxBins=100)
+        m.setInitialComposition(list(cfg.get('x0', [0.02, 0.02])))
+        m.setTemperature(cfg.get('T', 720.))
+        a = 0.4e-9
+        m.setVolumeAlpha(a ** 3, VolumeParameter.ATOMIC_VOLUME, 4)
+        for p in ph:
+            m.setInterfacialEnergy(TPH[p]['gamma'], phase=p)
+            m.setVolumeBeta(a ** 3 / TPH[p]['vratio'], VolumeParameter.ATOMIC_VOLUME, 4, phase=p)
+            m.setNucleationSite('dislocations', phase=p)
+            if TPH[p]['shape'] is not None:
+                m.setPrecipitateShape(TPH[p]['shape'][0], phase=p, ratio=TPH[p]['shape'][1])
+        m.setNucleationDensity(grainSize=1, dislocationDensity=1e15)
+        if cfg.get('constraints'):
+            m.setConstraints(**cfg['constraints'])
+        log = TernaryLog(c03_runs.StubTernary(ph))
+        m.setThermodynamics(log)
+        log.model = m
+        m.solve(cfg['tf'], solverType=SolverType.RK4 if cfg.get('solver') == 'RK4' else SolverType.EXPLICITEULER, verbose=False)
+    n = m.pData.n
+    out = {'n': int(n), 'time': m.pData.time[:n + 1].copy(), 'temperature': m.pData.temperature[:n + 1].copy(), 'phase': {},
+           'composition': m.pData.composition[:n + 1].copy(), 'bad': log.bad, 'ncalls': log.ncalls}
+    for j, nm in enumerate(ph):
+        d = {f: np.array(getattr(m.pData, f))[:n + 1, j].copy() for f in RUN_FIELDS}
+        d['PSD'] = m.PBM[j].PSD.copy()
+        d['PSDbounds'] = m.PBM[j].PSDbounds.copy()
+        out['phase'][nm] = d
+    return out
+
+
+def oracle_truns(cfg):
+    k = len(cfg['phases'])
+    orders = [tuple(o) for o in (cfg.get('orders') or itertools.permutations(range(k)))]
+    rtol = 0.0 if k <= 2 else 1e-9
+    hits, info = [], {'steps': [], 'calls': 0}
+    base = None
+    for od in orders:
+        r = run_ternary(cfg, od)
+        info['steps'].append(r['n'])
+        info['calls'] += r['ncalls']
+        for what, msg in r['bad'][:1]:
+            hits.append(('phase_inputs', what.split(' (')[0], msg))
+        if base is None:
+            base, l0 = r, [cfg['phases'][i] for i in od]
+            continue
+        l1 = [cfg['phases'][i] for i in od]
+        if r['n'] != base['n']:
+            hits.append(('run_perm_equivariant', 'multicomponent time grid', 'ternary run: listing the phases as %s takes %d steps to t=%g, listing them as %s takes %d steps'
+                         % (l0, base['n'], cfg['tf'], l1, r['n'])))
+            continue
+        found = False
+        for f in ('time', 'composition'):
+            d, kk = cmp_arrays(base[f], r[f], rtol)
+            if d:
+                hits.append(('run_perm_equivariant', 'multicomponent ' + ('time grid' if f == 'time' else 'matrix history'),
+                             'ternary run: %s differs between phase orders %s and %s: %s' % (f, l0, l1, d)))
+                found = True
+                break
+        if found:
+            continue
+        for nm in cfg['phases']:
+            for f in RUN_FIELDS + ['PSD', 'PSDbounds']:
+                d, kk = cmp_arrays(base['phase'][nm][f], r['phase'][nm][f], rtol)
+                if d:
+                    hits.append(('run_perm_equivariant', 'multicomponent phase history', 'ternary run: %s of phase %s differs between phase orders %s and %s: %s' % (f, nm, l0, l1, d)))
+                    found = True
+                    break
+            if found:
+                break
+    return hits, info
+
+
+def trun_configs(quick):
+    cfgs = [dict(name='ternary, two phases differing in gamma / Vm / shape', phases=['T1', 'T2'], tf=30.),
+            dict(name='ternary, three phases', phases=['T1', 'T2', 'T3'], tf=4.),
+            dict(name='ternary, two phases, RK4', phases=['T3', 'T2'], tf=3., solver='RK4')]
+    if not quick:
+        cfgs += [dict(name='ternary, two phases, long', phases=['T1', 'T2'], tf=500.),
+                 dict(name='ternary, T1+T3, 680 K', phases=['T1', 'T3'], tf=100., T=680.),
+                 dict(name='ternary, three phases, volume rule', phases=['T1', 'T2', 'T3'], tf=2., constraints=VOLCONS)]
+    return cfgs
+
+
+def explore_truns(ctx, cfgs):
+    hits = []
+    for cfg in cfgs:
+        t0 = time.time()
+        hs, info = oracle_truns(cfg)
+        ctx.cov['traces_validated_against_impl'] += len(info['steps'])
+        ctx.count({'trun': cfg}, True)
+        ctx.notes.setdefault('ternary_runs', []).append({'config': cfg['name'], 'orders': len(info['steps']), 'steps': info['steps'],
+                                                         'growth_calls_checked': info['calls'], 'wall_s': round(time.time() - t0, 1)})
+        for h in hs:
+            hits.append((cfg,) + h)
+    return hits
